@@ -21,8 +21,11 @@ CHECKS = {
          "vanishes and expires before the next starts); after draining every browser's view must equal the services offered by the "
          "live providers of its type.",
          "DESIGN.md section 4 (C04)", "Rocq proofs of the hops (provider history -> remote cache content; announcement -> report; codec round trip) + simulated networks of the real stacks judged against the script's ground truth"),
- "C09": ("Theorem C09_hostname_defence_round (Properties_C09.v): for every interface table and local source, a registered hostname object "
-         "answers a newcomer's A+AAAA probe for its name and that reply moves the unregistered newcomer to a later candidate; "
+ "C09": ("Theorems (Properties_C09.v): C09_incumbent_keeps_its_hostname (HostNet.v) - over ALL schedules of a two-host network without loss "
+         "or delay, an incumbent registered under n that can answer the newcomer's source (C17 condition) and does not re-assert keeps the "
+         "newcomer from ever registering n, whatever the newcomer does (probes, conflicts, registrations, re-assertions): invariant 'B holds "
+         "n unregistered => its probe or A's conflicting answer is in flight'; C09_hostname_defence_round - one round, for every "
+         "interface table and local source; "
          "C09_service_names_refuted: the service-name half is false of the faithful model (a confirmed provider is silent on the "
          "prober's ANY question) - witness by computation. Per run: networks of 2..5 real participants wanting the same host name and "
          "instance name, started one after another with link delays up to 900 ms; registered host names and served instance names must "
